@@ -6,7 +6,7 @@ export GOFLAGS=-mod=mod GOPROXY=off GOSUMDB=off GOTOOLCHAIN=local
 J=1; if [ "$1" = "-j" ]; then J=$2; shift 2; fi
 dirs=${@:-/verif/seeded/*}
 one() {
-  S=$1; [ -f $S/patch.diff ] || return
+  S=$(readlink -f $1); [ -f $S/patch.diff ] || return
   n=$(basename $S); id=$(echo $n | cut -d- -f1)
   W=$(mktemp -d /tmp/seedwt.XXXXXX); V=$(mktemp -d /tmp/seedv.XXXXXX)
   git -C /repo worktree add -q --detach $W HEAD || { echo "$n: cannot create worktree"; return; }
